@@ -55,6 +55,29 @@ theorem contains_tuple_cons_str (k : Str) (rest : List PyVal) (s : Str) :
 theorem contains_set_str (a : PyVal) (s : Str) : contains_set a (.str s) = contains a (.str s) := by
   simp [contains_set, hashable]
 
+/-! ### `str.partition` / `str.split(c, 1)` -/
+
+/-- `s.split(c, 1)` is `[s]` (no `c` in `s`) or two pieces -/
+theorem splitOnMax_one_cases (c : Nat) (s : Str) :
+    splitOnMax c 1 s = [s] ∨ ∃ a b, splitOnMax c 1 s = [a, b] := by
+  induction s with
+  | nil => exact .inl rfl
+  | cons x xs ih =>
+    by_cases hx : (x == c) = true
+    · exact .inr ⟨[], xs, by simp [splitOnMax, hx]⟩
+    · have hx' : (x == c) = false := by simpa using hx
+      rcases ih with h | ⟨a, b, h⟩
+      · exact .inl (by simp [splitOnMax, hx', h])
+      · exact .inr ⟨x :: a, b, by simp [splitOnMax, hx', h]⟩
+
+/-- the first piece of `s.partition(c)` is the first piece of `s.split(c, 1)` -/
+theorem str_partition_head (s : Str) (c : Nat) :
+    ∃ a sep b, str_partition (.str s) (.str [c]) = .ok (.tuple [.str a, .str sep, .str b]) ∧
+      (splitOnMax c 1 s).head? = some a := by
+  rcases splitOnMax_one_cases c s with h | ⟨a, b, h⟩
+  · exact ⟨s, [], [], by simp [str_partition, h], by simp [h]⟩
+  · exact ⟨a, [c], b, by simp [str_partition, h], by simp [h]⟩
+
 end PyRt
 
 /-- symbolic evaluation of a translated `do` block: the run-time's evaluation lemmas (already `@[simp]`), the plumbing of
